@@ -65,18 +65,27 @@ def jobs(tier):
             # non-default ordmin only restricts the axis range: markers stay at column*step
             out.append({"ob": "O1", "cfg": {"fn": "stab_plot", "shape": list(shp), "hide": hide, "step": 1, "cov": False, "ordmin": 1}})
             out.append({"ob": "O2", "cfg": {"fn": "cluster_plot", "shape": list(shp), "hide": hide}})
+            # the cluster diagram shows the same poles as the stabilisation diagram: ordmin does not remove any
+            out.append({"ob": "O2", "cfg": {"fn": "cluster_plot", "shape": list(shp), "hide": hide, "ordmin": 1}})
     for n, nf in (((2, 3), (3, 3)) if tier == "quick" else ((2, 3), (3, 3), (3, 4))):
         for nsv in ["all"] + list(range(1, n)):
             out.append({"ob": "O3", "cfg": {"fn": "CMIF_plot", "n": n, "nf": nf, "nSv": nsv}})
+        # a frequency limit only sets the axis range: curves are drawn over the whole grid, referred to the global maximum
+        out.append({"ob": "O3", "cfg": {"fn": "CMIF_plot", "n": n, "nf": nf, "nSv": "all", "freqlim": [0.5, 1.5]}})
+        out.append({"ob": "O3", "cfg": {"fn": "FDD.plot_CMIF", "n": n, "nf": nf, "nSv": "all", "freqlim": [0.5, 1.5]}})
     for cls, meth in (("SSIdat", "plot_stab"), ("SSIdat", "plot_cluster"), ("pLSCF", "plot_stab"), ("pLSCF", "plot_cluster"),
                       ("FDD", "plot_CMIF")):
         for hide in (True, False):
             if meth == "plot_CMIF" and not hide:
                 continue
             out.append({"ob": "O4", "cfg": {"cls": cls, "meth": meth, "shape": [2, 3], "hide": hide}})
-            if meth == "plot_stab":
+            if meth in ("plot_stab", "plot_cluster"):
                 out.append({"ob": "O4", "cfg": {"cls": cls, "meth": meth, "shape": [2, 3], "hide": hide, "ordmin": 1}})
     return out
+
+
+def _fl(cfg):
+    return tuple(cfg["freqlim"]) if cfg.get("freqlim") else None
 
 
 def run(job, tier):
@@ -178,7 +187,7 @@ def run_poles(cfg, tier, ob):
             return tp.stab_plot(T["Fn"], T["Lab"], cfg["step"], C - 1, ordmin=cfg.get("ordmin", 0), freqlim=(0, 10),
                                 hide_poles=cfg["hide"], Fn_cov=T["Fn_cov"])
         if ob == "O2":
-            return tp.cluster_plot(T["Fn"], T["Xi"], T["Lab"], ordmin=0, freqlim=None, hide_poles=cfg["hide"])
+            return tp.cluster_plot(T["Fn"], T["Xi"], T["Lab"], ordmin=cfg.get("ordmin", 0), freqlim=None, hide_poles=cfg["hide"])
 
         class _O:
             pass
@@ -245,7 +254,7 @@ def replay_poles(cfg, ob, inputs):
         if ob == "O1":
             fig, ax = plot.stab_plot(Fn, Lab, step, C - 1, ordmin=cfg.get("ordmin", 0), freqlim=(0, 10), hide_poles=cfg["hide"], Fn_cov=cov)
         elif ob == "O2":
-            fig, ax = plot.cluster_plot(Fn, Xi, Lab, ordmin=0, freqlim=None, hide_poles=cfg["hide"])
+            fig, ax = plot.cluster_plot(Fn, Xi, Lab, ordmin=cfg.get("ordmin", 0), freqlim=None, hide_poles=cfg["hide"])
         else:
             class _O:
                 pass
@@ -306,14 +315,14 @@ def run_cmif(cfg, tier):
             Explorer.cur.assume(S[ix].v > 0)
         rec.calls.clear()
         if cfg["fn"] == "CMIF_plot":
-            return tp.CMIF_plot(S, freq, freqlim=None, nSv=cfg["nSv"])
+            return tp.CMIF_plot(S, freq, freqlim=_fl(cfg), nSv=cfg["nSv"])
 
         class _O:
             pass
         res = _O()
         res.S_val, res.freq = S, freq
         alg = W.carrier(afdd.FDD, result=res, run_params=_O(), name="a")
-        return alg.plot_CMIF(freqlim=None, nSv=cfg["nSv"])
+        return alg.plot_CMIF(freqlim=_fl(cfg), nSv=cfg["nSv"])
 
     log10 = z3.Function("uf_log10", z3.RealSort(), z3.RealSort())
     for e, (kind, res) in ex.run_all(body):
@@ -361,7 +370,7 @@ def replay_cmif(cfg, inputs):
     n = S.shape[0]
     try:
         if cfg["fn"] == "CMIF_plot":
-            fig, ax = plot.CMIF_plot(S, freq, freqlim=None, nSv=cfg["nSv"])
+            fig, ax = plot.CMIF_plot(S, freq, freqlim=_fl(cfg), nSv=cfg["nSv"])
         else:
             class _O:
                 pass
@@ -369,7 +378,7 @@ def replay_cmif(cfg, inputs):
             res.S_val, res.freq = S, freq
             alg = object.__new__(afdd.FDD)
             alg.result, alg.run_params, alg.name = res, _O(), "a"
-            fig, ax = alg.plot_CMIF(freqlim=None, nSv=cfg["nSv"])
+            fig, ax = alg.plot_CMIF(freqlim=_fl(cfg), nSv=cfg["nSv"])
     except Exception as e:  # noqa: BLE001
         plt.close("all")
         return True, f"{cfg['fn']} raised {type(e).__name__}: {e}", f"{cfg['fn']}:raises"
